@@ -99,6 +99,20 @@ void FeatureChecker::visitGuard(expression_t& guard)
     }
 }
 
+namespace {
+/** Applies the assignment check to every expression in the body of a called function. */
+class BodyAssignments : public ExpressionVisitor
+{
+    FeatureChecker& checker;
+
+protected:
+    void visitExpression(expression_t expr) override { checker.visitAssignment(expr); }
+
+public:
+    explicit BodyAssignments(FeatureChecker& checker): checker{checker} {}
+};
+}  // namespace
+
 /** True if the assigned object is a hybrid clock, in both branches when it is chosen by a conditional. */
 static bool is_hybrid_target(const expression_t& target)
 {
@@ -109,6 +123,8 @@ static bool is_hybrid_target(const expression_t& target)
 
 void FeatureChecker::visitAssignment(expression_t& ass)
 {
+    if (ass.empty())  // e.g. the absent initialiser of a local variable of a called function
+        return;
     switch (ass.get_kind()) {
     case Constants::ASSIGN:
     case Constants::ASS_PLUS:
@@ -130,6 +146,17 @@ void FeatureChecker::visitAssignment(expression_t& ass)
     // assignments nested in the operands: h = x = 1.5, i = 1, x = 1.5
     for (uint32_t i = 0; i < ass.get_size(); ++i)
         visitAssignment(ass.get(i));
+    // ... and those the update executes by calling a function
+    if (ass.get_kind() == Constants::FUN_CALL) {
+        symbol_t callee = ass.get(0).get_symbol();
+        if (callee != symbol_t() && callee.get_type().is_function() && callee.get_data() != nullptr) {
+            auto* fun = static_cast<function_t*>(callee.get_data());
+            if (fun->body != nullptr && visited_functions.insert(fun).second) {
+                auto body = BodyAssignments{*this};
+                fun->body->accept(&body);
+            }
+        }
+    }
 }
 
 void FeatureChecker::visitLocation(location_t& location)
